@@ -133,11 +133,15 @@ def _allowed(path, root):
 
 def _plant(tree, world):
     """State of the world outside the root."""
-    for name in ("secret.txt", "secret.txt.abstract", "secret.txt.keywords", "etc-passwd"):
+    sib = os.path.basename(tree.root)
+    for name in ("secret.txt", "secret.txt.abstract", "secret.txt.keywords", "etc-passwd", sib + "URL:mailto:a", sib + "URL:mailto:a.abstract"):
         p = os.path.join(tree.tmp, name)
         if os.path.exists(p):
             os.unlink(p)
     if world == "A":
+        # siblings of the root whose names extend the root's own name (root + "URL:..." without a separator)
+        tree.outside(sib + "URL:mailto:a", b"SIBLING-SECRET-A\n")
+        tree.outside(sib + "URL:mailto:a.abstract", b"SIBLING-SECRET-ABSTRACT-A\n")
         tree.outside("secret.txt", b"TOP-SECRET-A\n")
         tree.outside("secret.txt.abstract", b"SECRET-ABSTRACT-A\n")
         tree.outside("secret.txt.keywords", b"SECRET-KEYWORDS-A\n")
